@@ -298,7 +298,57 @@ fn c20_enumerated(cx: &mut Ctx) {
             .collect();
         probe_cells(cx, PK::None, &prefix, &probes, "save-restore", "-", "API");
     }
-    cx.stats.exhaustive_parts.insert("256 code points x 4 tables x {G0,G1} x {SI,SO} x 3 orders of designating and shifting (designate-shift, shift-designate, re-designate the slot in use) through Screen::draw; every drawable byte x the same 16 configurations through ByteParser and Parser in 8-bit mode; defaults after construction and RIS (256 x SI/SO); every designator final 0x30..=0x7e on both slots (API and parser); UTF-8 mode ignores shifts and designators; code points above 255".into());
+    // (6) DECRC straight after the slot IN USE was re-designated under the savepoint (round 13):
+    // every (G0, G1, shift) at DECSC x one or two re-designations x an optional shift, DECRC, and
+    // the draw follows at once - a "the set in use is Latin-1" memo that only a shift or a
+    // designation refreshes must not survive the restore
+    for (c0, t0) in CODES {
+        for (c1, t1) in CODES {
+            for so in [false, true] {
+                idx += 1;
+                if !cx.mine(idx) || !cx.begin_group(&format!("save-redesignate-restore {} {} so={}", c0, c1, so)) {
+                    continue;
+                }
+                let active = if so { t1 } else { t0 };
+                let chars = active.chars().unwrap();
+                let probes: Vec<(Op, String, String)> = [0x5fu32, 0x71, 0x7e, 0xb0, 0xe9, 0x01]
+                    .iter()
+                    .map(|cp| (Op::Api(Call::Draw(char::from_u32(*cp).unwrap().to_string())), shown(chars[*cp as usize]), format!("restored cp=0x{:02x}", cp)))
+                    .collect();
+                let mut mids: Vec<Vec<Op>> = Vec::new();
+                for (d1, _) in CODES {
+                    for s1 in ["(", ")"] {
+                        let a = Op::Api(Call::DefineCharset(d1.into(), s1.into()));
+                        mids.push(vec![a.clone()]);
+                        for (d2, _) in CODES {
+                            for s2 in ["(", ")"] {
+                                mids.push(vec![a.clone(), Op::Api(Call::DefineCharset(d2.into(), s2.into()))]);
+                            }
+                        }
+                    }
+                }
+                for mid in &mids {
+                    for tail in 0..3 {
+                        let mut prefix = vec![
+                            Op::Api(Call::DefineCharset(c0.into(), "(".into())),
+                            Op::Api(Call::DefineCharset(c1.into(), ")".into())),
+                            Op::Api(if so { Call::ShiftOut } else { Call::ShiftIn }),
+                            Op::Api(Call::SaveCursor),
+                        ];
+                        prefix.extend(mid.iter().cloned());
+                        match tail {
+                            1 => prefix.push(Op::Api(Call::ShiftIn)),
+                            2 => prefix.push(Op::Api(Call::ShiftOut)),
+                            _ => {}
+                        }
+                        prefix.push(Op::Api(Call::RestoreCursor));
+                        probe_cells(cx, PK::None, &prefix, &probes, "save-restore", &format!("(={}|)={}|so={}|tail={}", c0, c1, so, tail), "API");
+                    }
+                }
+            }
+        }
+    }
+    cx.stats.exhaustive_parts.insert("256 code points x 4 tables x {G0,G1} x {SI,SO} x 3 orders of designating and shifting (designate-shift, shift-designate, re-designate the slot in use) through Screen::draw; every drawable byte x the same 16 configurations through ByteParser and Parser in 8-bit mode; defaults after construction and RIS (256 x SI/SO); every designator final 0x30..=0x7e on both slots (API and parser); UTF-8 mode ignores shifts and designators; code points above 255; DECRC straight after one or two re-designations (+ optional shift) under the savepoint, from all 32 (G0, G1, shift) states".into());
 }
 
 fn c20_cands(rng: &mut crate::rng::Rng, _pre: &crate::snapshot::Snap, _t: Tier) -> Vec<Cand> {
@@ -337,6 +387,21 @@ fn c20_cands(rng: &mut crate::rng::Rng, _pre: &crate::snapshot::Snap, _t: Tier) 
         for _ in 0..k {
             ops.push(des(rng));
         }
+        ops.push(Op::Api(Draw(s)));
+        v.push(Cand { ops });
+    }
+    // DECSC, k designations [shift], DECRC and the draw at once (nothing refreshes a memo in between)
+    for _ in 0..3 {
+        let k = 1 + rng.below(2);
+        let mut ops = vec![Op::Api(SaveCursor)];
+        for _ in 0..k {
+            ops.push(Op::Api(DefineCharset((*rng.pick(&["B", "0", "U", "V"])).into(), (*rng.pick(&["(", ")"])).into())));
+        }
+        if rng.below(3) == 0 {
+            ops.push(Op::Api(if rng.bool() { ShiftOut } else { ShiftIn }));
+        }
+        ops.push(Op::Api(RestoreCursor));
+        let s: String = (0..2).map(|_| *rng.pick(&['q', 'x', '~', 'a', '\u{e9}', '_', '\u{b0}'])).collect();
         ops.push(Op::Api(Draw(s)));
         v.push(Cand { ops });
     }
